@@ -12,14 +12,16 @@ CHECKS = {
         technique="explicit-state model checking (stateright BFS/DFS) of the real runtime types against a reference ownership model; miri replay of the depth-3 frontier",
         text="Every history of create/convert/borrow/clone/drop operations up to the stated depth over the runtime's DiplomatResult/DiplomatOption/"
              "DiplomatOwnedSlice/DiplomatOwnedUTF8StrSlice/DiplomatCallback is executed on the real code with drop-logging payloads (four payload families) and "
-             "compared after every step and at quiescence with a reference ownership model: exactly-once is decided for all histories within the bound, not sampled.",
+             "compared after every step and at quiescence with a reference ownership model: exactly-once is decided for all histories within the bound, not sampled. Operations include clone and clone_from between two live cells of one runtime type (every arm pair).",
         note="Trusted: the harness' drop log and ownership model; rustc/miri. Bounded by history depth and number of live cells."),
     "C04": dict(
         category="model_checking", design="§2 C04",
         technique="exhaustive enumeration of method signatures; reference outlives-closure model stepped against the real BorrowingParamVisitor in-process and against edge arrays parsed from js/dart/kotlin/nanobind output",
         text="Every method signature in the bounded grammar (named lifetimes, every declared bound set, four self forms, 17 parameter forms with every lifetime "
              "assignment, 11 return forms) that the gate accepts is lowered by the real HIR code; the borrow map of the real BorrowingParamVisitor must equal, edge for "
-             "edge, the reflexive-transitive outlives closure of declared and implied bounds, and the edge arrays the four managed backends emit must contain it.",
+             "edge, the reflexive-transitive outlives closure of declared and implied bounds, and the edge arrays the four managed backends emit must contain it. A second enumeration covers struct definitions that nest a borrowing struct: every instantiation of the inner "
+             "struct's lifetime slots with the outer struct's lifetimes is judged in-process (StructBorrowInfo::compute_for_struct_field), in the generated Dart struct code, and by "
+             "executing the generated JS `_fieldsForLifetime` getters under Node.",
         note="Trusted: the 40-line reference model; the tolerant extractors for .mjs/.g.dart/.kt/_ext.cpp (anything uninterpretable is UNDECIDED = exit 2). "
              "Dart/Kotlin/Python output is parsed, not executed (no toolchains). Returned slices/strings (copied by some backends) are judged in-process only."),
     "C05": dict(
